@@ -57,18 +57,21 @@ static void oracle(const Case &c, vf::Stats &st) {
     return;
   }
   // twovm: ops = [ia, ib, la, lb, mask]  — interleaving mask picks which VM moves at each of the la+lb positions
-  int ia = c.ops[0], ib = c.ops[1], la = c.ops[2], lb = c.ops[3]; unsigned mask = (unsigned)c.ops[4];
+  int ia = c.ops[0], ib = c.ops[1], la = c.ops[2], lb = c.ops[3]; unsigned mask = (unsigned)c.ops[4]; bool different_programs = c.ops.size() > 5 && c.ops[5];
   auto HA = vm_histories(la)[ia], HB = vm_histories(lb)[ib];
   std::string verdict = in_fresh_process([&]() {
     Theo::CodegenResult cr = Theo::compile(det::src_S1(), "main"); std::string before = det::ser_result(cr);
-    std::vector<std::string> soloA, soloB; { Theo::VM a(cr.code); for (int o : HA) soloA.push_back(vm_apply(a, o)); } { Theo::VM b(cr.code); for (int o : HB) soloB.push_back(vm_apply(b, o)); }
-    Theo::VM a(cr.code), b(cr.code); size_t pa = 0, pb = 0; std::string v;
+    // second program: same file names and line numbers, but an edited text (every site sits at another code index)
+    det::Files f2 = det::src_S1(); { std::string &m = f2["main"]; size_t p = m.find("x0 := 3;"); m.replace(p, 8, "x0 := 2; x7 := x0; x0 := x0 + 1;"); }
+    Theo::CodegenResult cr2 = different_programs ? Theo::compile(f2, "main") : cr; std::string before2 = det::ser_result(cr2);
+    std::vector<std::string> soloA, soloB; { Theo::VM a(cr.code); for (int o : HA) soloA.push_back(vm_apply(a, o)); } { Theo::VM b(cr2.code); for (int o : HB) soloB.push_back(vm_apply(b, o)); }
+    Theo::VM a(cr.code), b(cr2.code); size_t pa = 0, pb = 0; std::string v;
     for (int i = 0; i < la + lb && v.empty(); i++) {
       bool moveA = (mask >> i) & 1;
       if (moveA) { std::string r = vm_apply(a, HA[pa]); if (r != soloA[pa]) v = "VM A call " + std::to_string(pa) + " observes '" + r.substr(0, 120) + "', alone '" + soloA[pa].substr(0, 120) + "'"; pa++; }
       else { std::string r = vm_apply(b, HB[pb]); if (r != soloB[pb]) v = "VM B call " + std::to_string(pb) + " observes '" + r.substr(0, 120) + "', alone '" + soloB[pb].substr(0, 120) + "'"; pb++; }
     }
-    if (v.empty() && det::ser_result(cr) != before) v = "the compilation result the VMs were built from was modified";
+    if (v.empty() && (det::ser_result(cr) != before || det::ser_result(cr2) != before2)) v = "the compilation result the VMs were built from was modified";
     return v; });
   st.nontrivial.insert(c.hash()); st.add("vm_calls_compared", la + lb); st.outcomes.insert(vf::fnv(verdict) ^ c.ops[0] * 131 ^ c.ops[1]);
   if (!verdict.empty()) st.violation(key, verdict, cj);
@@ -79,18 +82,18 @@ static Level fam_histories(int d) {
             for (int len = 1; len <= d; len++) { std::vector<int> ix(len, 0);
               for (;;) { Case c; c.kind = "history"; c.ops = ix; cb(c); int i = 0; while (i < len && ++ix[i] == det::NOPS) ix[i++] = 0; if (i == len) break; } } }};
 }
-static Level fam_twovm(int la, int lb) {
-  return {"two VMs: 12x12 history pairs (" + std::to_string(la) + "," + std::to_string(lb) + " calls) x all interleavings", [=](const CB &cb) {
+static Level fam_twovm(int la, int lb, bool different_programs = false) {
+  return {std::string("two VMs on ") + (different_programs ? "two different programs (same files/lines)" : "one program") + ": 12x12 history pairs (" + std::to_string(la) + "," + std::to_string(lb) + " calls) x all interleavings", [=](const CB &cb) {
             for (int ia = 0; ia < 12; ia++) for (int ib = 0; ib < 12; ib++) for (unsigned mask = 0; mask < (1u << (la + lb)); mask++) {
               if (__builtin_popcount(mask) != la) continue;
-              Case c; c.kind = "twovm"; c.ops = {ia, ib, la, lb, (int)mask}; cb(c); } }};
+              Case c; c.kind = "twovm"; c.ops = {ia, ib, la, lb, (int)mask, different_programs ? 1 : 0}; cb(c); } }};
 }
 
 int main(int argc, char **argv) {
   drv::Args args = drv::Args::parse(argc, argv); bool T = args.thorough();
   for (int i = 0; i < det::NOPS; i++) g_baseline.push_back(in_fresh_process([i]() { return det::run_op(i, nullptr); }));
   Level fresh = {"reproducible across fresh processes", [](const CB &cb) { for (int rep = 0; rep < 3; rep++) for (int i = 0; i < det::NOPS; i++) { Case c; c.kind = "fresh"; c.ops = {i, rep}; cb(c); } }};
-  std::vector<Level> L = {fresh, fam_histories(3), fam_twovm(3, 2)};
-  if (T) { L.push_back(fam_histories(4)); L.push_back(fam_twovm(4, 3)); L.push_back(fam_histories(5)); }
+  std::vector<Level> L = {fresh, fam_histories(3), fam_twovm(3, 2), fam_twovm(3, 2, true)};
+  if (T) { L.push_back(fam_histories(4)); L.push_back(fam_twovm(4, 3)); L.push_back(fam_twovm(4, 3, true)); L.push_back(fam_histories(5)); }
   return drv::run<Case>(args, L, oracle, {}, 60);
 }
